@@ -171,6 +171,18 @@ def handle (s : Sexp) : D String :=
           "(" ++ Sexp.quote sf.rep ++ " (" ++ " ".intercalate ((unfoldF sf).map fun c =>
             "(" ++ " ".intercalate (c.map fun x => Sexp.quote x.rep) ++ ")") ++ "))"
         pure ("(" ++ Sexp.quote f.rep ++ " " ++ " ".intercalate per ++ ")")
+  | .list [.atom "hrules", t, d] => do
+      -- the rules emitted for a head formula d steps after its own step: per clause, per element
+      --   (h "<atom key>") head atom | (b "<rep of the body formula whose literal is negated>") | (x)
+      match hCreateFormula (← decTTerm t) with
+      | .error e => pure ("ERR " ++ e.tag)
+      | .ok f =>
+        let showE := fun (e : RuleElem) => match e with
+          | .head p n a => s!"(h {Sexp.quote (hkey p n a)})"
+          | .nbody g => s!"(b {Sexp.quote g.rep})"
+          | .nothing => "(x)"
+        pure ("(" ++ " ".intercalate ((unfoldF (shiftF (← decNat d) f)).map fun c =>
+          "(" ++ " ".intercalate ((ruleShape c).map showE) ++ ")") ++ ")")
   | .list [.atom "parse", tbl, .list els] => do
       -- (parse body|head|headtheory|del ((ops...) ...))  operands are numbered in order
       let (t, d) ← match tbl with
@@ -256,6 +268,12 @@ def handle (s : Sexp) : D String :=
       match convTerm headTablePy (← decHTerm x) with
       | .ok p => pure (showPTerm p)
       | .error e => pure ("ERR " ++ e.tag)
+  | .list (.atom "todo" :: ks) => do
+      -- (todo (step rep) ...) : the queue after these add_todo calls
+      let keys ← ks.mapM fun k => match k with
+        | .list [st, rep] => do pure ((← decNat st, ← decStr rep) : TodoKey)
+        | x => dfail "todo key" x
+      pure ("(" ++ " ".intercalate ((todoAfter keys).map fun (st, rep) => s!"({st} {Sexp.quote rep})") ++ ")")
   | .list [.atom "getvars", x] => do
       -- (getvars <theory term>) : get_variables, in order
       pure ("(" ++ " ".intercalate ((getVariables (← decHTerm x)).map Sexp.quote) ++ ")")
